@@ -604,3 +604,150 @@ Lemma is_strict_ancestor_eq : forall x c a, inr a x ->
 Proof.
   intros. unfold is_strict_ancestor, get_arena, bind. rewrite rdi_ok by auto. reflexivity.
 Qed.
+
+(* ================= more tools ================= *)
+Lemma dseg_hd : forall a o pv L nx y, dseg a o pv L nx -> hd_error L = Some y -> prev (nd a y) = pv.
+Proof. intros a o pv [|z L] nx y D H; inversion H; subst. apply dseg_cons in D. tauto. Qed.
+
+Lemma dseg_last : forall a o L pv nx y, dseg a o pv L nx -> last_error L = Some y -> next (nd a y) = nx.
+Proof.
+  intros a o L pv nx y D H. apply last_error_split in H. destruct H as [L' ->].
+  apply dseg_mid in D. destruct D as [_ D]. exact D.
+Qed.
+
+(* [dseg_rebuild] with the case distinctions spelled out as separate premises *)
+Lemma dseg_rebuild' : forall a a' o o' L pv pv' nx nx',
+  dseg a o pv L nx -> NoDup L -> length (nodes a') = length (nodes a) ->
+  (forall y, In y L -> parent (nd a' y) = o') ->
+  (forall y, In y L -> hd_error L <> Some y -> prev (nd a' y) = prev (nd a y)) ->
+  (forall y, hd_error L = Some y -> prev (nd a' y) = pv') ->
+  (forall y, In y L -> last_error L <> Some y -> next (nd a' y) = next (nd a y)) ->
+  (forall y, last_error L = Some y -> next (nd a' y) = nx') ->
+  dseg a' o' pv' L nx'.
+Proof.
+  intros a a' o o' L pv pv' nx nx' D ND LEN HP HV1 HV2 HN1 HN2.
+  eapply dseg_rebuild; eauto.
+  - intros y Hy. destruct (onid_eqb (hd_error L) (Some y)) eqn:E.
+    + apply onid_eqb_eq in E. auto.
+    + apply onid_eqb_false in E. auto.
+  - intros y Hy. destruct (onid_eqb (last_error L) (Some y)) eqn:E.
+    + apply onid_eqb_eq in E. auto.
+    + apply onid_eqb_false in E. auto.
+Qed.
+
+Lemma oat_live : forall a o y, live a y -> (forall v, o = Some v -> live a v) ->
+  oat o (idx y) = onid_eqb o (Some y).
+Proof.
+  intros a [v|] y L H; cbn; auto. destruct (nid_eq_dec v y) as [->|N].
+  - now rewrite Nat.eqb_refl, nid_eqb_refl.
+  - rewrite nid_eqb_neq by auto. apply (live_idx_neq a); auto.
+Qed.
+
+Lemma oat_dead : forall a o i n, nth_error (nodes a) i = Some n -> (stamp n < 0)%Z ->
+  (forall v, o = Some v -> live a v) -> oat o i = false.
+Proof.
+  intros a [v|] i n E S H; cbn; auto. apply Nat.eqb_neq. intros ->.
+  destruct (live_stamp _ _ (H v eq_refl)) as [S1 S2].
+  pose proof (nd_at a v n E). subst n. lia.
+Qed.
+
+(* slots an effect does not touch *)
+Lemma fset_other : forall z f v j n, Nat.eqb j (idx z) = false -> fset z f v j n = n.
+Proof. intros. unfold fset. now rewrite H. Qed.
+Lemma ofset_other : forall o f v j n, oat o j = false -> ofset o f v j n = n.
+Proof. intros [z|] f v j n H; cbn in *; auto using fset_other. Qed.
+Lemma cnF_other : forall a par pv nx j n,
+  oat par j = false -> oat pv j = false -> oat nx j = false -> cnF a par pv nx j n = n.
+Proof. intros. unfold cnF, comp. now rewrite !ofset_other. Qed.
+Lemma reparentF_other : forall S np j n, existsb (Nat.eqb j) (map idx S) = false -> reparentF S np j n = n.
+Proof. intros. unfold reparentF. now rewrite H. Qed.
+
+Lemma NoDup_insert_mid : forall (c : nid) A B, NoDup (A ++ B) -> ~ In c (A ++ B) -> NoDup (A ++ c :: B).
+Proof.
+  induction A as [|y A IH]; intros B N H; cbn in *.
+  - now constructor.
+  - inversion N; subst. constructor.
+    + rewrite in_app_iff in *. cbn. intros [Hy|[->|Hy]]; tauto.
+    + apply IH; auto.
+Qed.
+
+Lemma NoDup_app_disj : forall (A B : list nid), NoDup (A ++ B) -> forall y, In y A -> In y B -> False.
+Proof.
+  induction A as [|z A IH]; intros B N y HA HB; [destruct HA|].
+  cbn in N. inversion N; subst. destruct HA as [->|HA].
+  - apply H1. apply in_or_app. now right.
+  - eapply IH; eauto.
+Qed.
+
+Lemma NoDup_app_left : forall (A B : list nid), NoDup (A ++ B) -> NoDup A.
+Proof.
+  induction A as [|z A IH]; intros B N; [constructor|]. cbn in N. inversion N; subst.
+  constructor; eauto. intros H. apply H1. apply in_or_app. now left.
+Qed.
+Lemma NoDup_app_right : forall (A B : list nid), NoDup (A ++ B) -> NoDup B.
+Proof. induction A as [|z A IH]; intros B N; auto. cbn in N. inversion N; subst. eauto. Qed.
+
+(* two arenas of the same shape representing the same forest are equal *)
+Lemma node_ext : forall n m : node,
+  parent n = parent m -> prev n = prev m -> next n = next m -> first n = first m -> last n = last m ->
+  stamp n = stamp m -> data n = data m -> n = m.
+Proof. intros [] []; cbn; intros; subst; reflexivity. Qed.
+
+Lemma Repr_links_unique : forall a a' F x, Repr a F -> Repr a' F -> live a x -> live a' x ->
+  forall g, getf g (nd a x) = getf g (nd a' x).
+Proof.
+  intros a a' F x R R' L L' g.
+  destruct (sibs_of a F R x L) as (S & HS & Hx).
+  assert (P : parent (nd a' x) = parent (nd a x)).
+  { rewrite (sibs_parent a' F R' _ _ _ HS Hx). symmetry. apply (sibs_parent a F R _ _ _ HS Hx). }
+  destruct g; cbn.
+  - auto.
+  - apply in_split in Hx. destruct Hx as (A & B & ->).
+    destruct (sibs_mid a F R _ _ _ _ HS) as [-> _]. destruct (sibs_mid a' F R' _ _ _ _ HS) as [-> _]. auto.
+  - apply in_split in Hx. destruct Hx as (A & B & ->).
+    destruct (sibs_mid a F R _ _ _ _ HS) as [_ ->]. destruct (sibs_mid a' F R' _ _ _ _ HS) as [_ ->]. auto.
+  - destruct (ends_of a F R x L) as [-> _]. destruct (ends_of a' F R' x L') as [-> _]. auto.
+  - destruct (ends_of a F R x L) as [_ ->]. destruct (ends_of a' F R' x L') as [_ ->]. auto.
+Qed.
+
+Lemma Repr_unique : forall a a' F, Repr a F -> Repr a' F -> same_shape a a' -> a' = a.
+Proof.
+  intros a a' F R R' (LEN & FF & LF & SH). apply arena_ext; auto. intros i.
+  destruct (nth_error (nodes a) i) as [n|] eqn:E.
+  - destruct (SH i n E) as (n' & E' & S' & D'). rewrite E'. f_equal.
+    destruct (Z_lt_ge_dec (stamp n) 0) as [Neg|Pos].
+    + destruct (r_dead _ _ R i n E Neg) as (P1 & P2 & P3 & P4 & P5).
+      destruct (r_dead _ _ R' i n' E') as (Q1 & Q2 & Q3 & Q4 & Q5); [lia|].
+      apply node_ext; congruence.
+    + set (x := mkId i (stamp n)).
+      assert (L : live a x). { exists n. repeat split; auto. cbn. lia. }
+      assert (L' : live a' x). { exists n'. repeat split; auto. cbn. lia. }
+      pose proof (Repr_links_unique a a' F x R R' L L') as G.
+      rewrite (nd_at a x n E), (nd_at a' x n' E') in G.
+      apply node_ext; auto; symmetry; [apply (G Fparent)|apply (G Fprev)|apply (G Fnext)|apply (G Ffirst)|apply (G Flast)].
+  - apply nth_error_None in E. apply nth_error_None. lia.
+Qed.
+
+(* liveness only depends on the shape *)
+Lemma same_shape_sym : forall a a', same_shape a a' -> same_shape a' a.
+Proof.
+  intros a a' (LEN & FF & LF & SH). unfold same_shape. repeat split; try congruence.
+  intros i n' E'. destruct (nth_error (nodes a) i) as [n|] eqn:E.
+  - destruct (SH i n E) as (m & Em & S & D). rewrite E' in Em. inversion Em; subst m. eauto.
+  - apply nth_error_None in E. assert (nth_error (nodes a') i <> None) by congruence.
+    apply nth_error_Some in H. lia.
+Qed.
+Lemma live_same_shape1 : forall a a' x, same_shape a a' -> live a x -> live a' x.
+Proof.
+  intros a a' x (_ & _ & _ & SH) (n & E & S & G). destruct (SH _ _ E) as (n' & E' & S' & _).
+  exists n'. repeat split; auto. congruence.
+Qed.
+Lemma live_same_shape : forall a a' x, same_shape a a' -> (live a x <-> live a' x).
+Proof. intros. split; apply live_same_shape1; auto using same_shape_sym. Qed.
+Lemma slot_removed_same_shape1 : forall a a' x, same_shape a a' -> slot_removed a x -> slot_removed a' x.
+Proof.
+  intros a a' x (_ & _ & _ & SH) (n & E & S). destruct (SH _ _ E) as (n' & E' & S' & _).
+  exists n'. split; auto. congruence.
+Qed.
+Lemma slot_removed_same_shape : forall a a' x, same_shape a a' -> (slot_removed a x <-> slot_removed a' x).
+Proof. intros. split; apply slot_removed_same_shape1; auto using same_shape_sym. Qed.
